@@ -6,7 +6,7 @@
    (strings.EqualFold); [gfind K objs] looks an object up by its case-folded absolute path. *)
 From Coq Require Import List NArith Bool Arith Lia.
 Import ListNotations.
-Require Import V.C10.Core V.C10.CoreLemmas V.C10.Proofs.
+Require Import V.C10.Core V.C10.CoreLemmas V.C10.Proofs V.C10.Ghosts.
 
 (* -- last assignment wins: after [ns.k: v] the attribute k of ns is v (shape values are lower-cased) -- *)
 Theorem C10_last_write_wins : forall p ns k v b,
@@ -88,7 +88,26 @@ Theorem C10_plain_programs_are_tight : forall p st,
   plain p = true -> run_state p = Ok st -> Forall tight_e (edges st) /\ consistent (edges st).
 Proof. exact plain_inv2. Qed.
 
-(* full statement refuted twice (finding C10-null-container-resurrected):
+(* full strength for every program without "_": after [ns: null] neither a declared nor a re-created
+   object lies under ns and no connection has ns on a path ... *)
+Theorem C10_null_removes_object_full : forall p ns body b,
+  ns <> [] -> no_ups (p ++ [DObj (0, ns) PNull body]) = true ->
+  run (p ++ [DObj (0, ns) PNull body]) = RBoard b ->
+  (forall o, In o (gobjs b ++ gghosts b) -> is_prefix (fkey ns) (fkey (gpath o)) = false) /\
+  (forall e, In e (gedges b) ->
+     is_prefix (fkey ns) (fkey (gsrc e)) = false /\ is_prefix (fkey ns) (fkey (gdst e)) = false).
+Proof. exact null_removes_object_full. Qed.
+
+(* ... because such programs never make d2compiler re-create an object, and all their connections are tight *)
+Theorem C10_no_underscore_no_resurrection : forall p b,
+  no_ups p = true -> run p = RBoard b -> gghosts b = [].
+Proof. exact no_ups_no_ghosts. Qed.
+
+Theorem C10_no_underscore_tight : forall p st,
+  no_ups p = true -> run_state p = Ok st -> Forall tight_e (edges st).
+Proof. exact no_ups_tight. Qed.
+
+(* with "_" the full statement is refuted twice (finding C10-null-container-resurrected):
    [a: { _.x } ;; a: null] — d2compiler re-creates a (an object without references);
    [a: { b -> _.x } ;; a: null] — the connection a.b -> x survives and re-creates a and a.b *)
 Theorem C10_null_removes_object_ghost_refuted :
@@ -163,11 +182,11 @@ Proof. exact redeclare_fresh. Qed.
 (* non-vacuity of the hypotheses *)
 Example C10_hypotheses_satisfiable :
   let p := [DObj (0, [n_a; n_b]) (PStr s_lbl) None; DEdge (0, [n_a; n_b]) (0, [n_x]) false true None PNone None] in
-  plain p = true /\
+  plain p = true /\ no_ups p = true /\
   (exists st, run_state p = Ok st /\ label_kw_at st (fkey [n_a; n_b]) = None /\ all_exist [] [n_a; n_b] (objs st)
               /\ find_obj [fold_name n_y] (objs st) = None /\ Forall tight_e (edges st) /\ consistent (edges st)).
 Proof.
-  split; [reflexivity|]. eexists. split; [vm_compute; reflexivity|].
+  split; [reflexivity|]. split; [reflexivity|]. eexists. split; [vm_compute; reflexivity|].
   split; [reflexivity|]. split.
   - intros j Hj. simpl in Hj. destruct j as [|[|[|j]]]; try lia.
     + eexists. split; [left; reflexivity | reflexivity].
@@ -188,6 +207,9 @@ Print Assumptions C10_first_spelling_wins.
 Print Assumptions C10_null_removes_object.
 Print Assumptions C10_null_removes_attached_edges.
 Print Assumptions C10_plain_programs_are_tight.
+Print Assumptions C10_null_removes_object_full.
+Print Assumptions C10_no_underscore_no_resurrection.
+Print Assumptions C10_no_underscore_tight.
 Print Assumptions C10_null_removes_object_ghost_refuted.
 Print Assumptions C10_null_removes_attached_edges_refuted.
 Print Assumptions C10_null_removes_edge.
